@@ -7,6 +7,7 @@ EXPLANATION = (
 
 
 def check(ctx, prog):
+    dispatch.rule_status_exhaustive(ctx, prog)  # every status a consistency algorithm can answer is one solve_one's dispatch names
     dispatch.rule_swallowed_raise(ctx, prog)  # scope: no division by a possibly-zero quantity behind a function pointer (the error is discarded, the status is arbitrary)
     shaving.rule_shave_bound(ctx, prog)
     shaving.rule_shaving_loop(ctx, prog)
